@@ -1,13 +1,82 @@
-"""C09 tie, second part: _get_type_from_meta (ap / lf / nidq decision on snsApLfSy)."""
-def _item(name, nidq):
+"""C09 tie, second part: the decision / index skeleton of the _get_* helpers and of _conversion_sample2v_from_meta.
+
+Conventions: a string test of the source is fixed per item by `assume` (one item per branch), `md.get(k, default)` is an opaque integer
+whose name carries the key AND the default (a changed default no longer matches the regular expression: the item is then reported
+untranslatable and the correspondence is escalated), `"NP2" in version` is the presence flag `<name>_has_NP2`.  The Lean side addresses
+the parameters BY NAME (`Src.C09.fs_imec (md_imSampRate := x)`), so a changed metadata key breaks the elaboration of the tie theorem."""
+
+_IMEC = r"md\.get\('typeThis'(, None)?\) == 'imec'"
+
+
+def _type_item(name, nidq):
     return {'name': name, 'module': 'spikeglx.py', 'function': '_get_type_from_meta', 'kind': 'fn', 'option_return': True,
             'value': 'Option String', 'free': ['snsApLfSy'],
             'assume': {r"snsApLfSy == \[-1, -1, -1\] and md\.get\('typeThis', None\) == 'nidq'": nidq},
             'params': ['snsApLfSy_0', 'snsApLfSy_1']}
 
 
+def _maxint_item(name, imec):
+    return {'name': name, 'module': 'spikeglx.py', 'function': '_get_max_int_from_meta', 'kind': 'fn',
+            'free': ['neuropixel_version'], 'assume': {_IMEC: imec},
+            'opaque': {r"md\.get\('imMaxInt', 512\)": 'md_imMaxInt_or_512', r"md\.get\('imMaxInt', 32768\)": 'md_imMaxInt_or_32768'},
+            'params': ['neuropixel_version_has_NP2', 'md_imMaxInt', 'md_imMaxInt_or_512', 'md_imMaxInt_or_32768']}
+
+
+def _sync_item(name, nidq):
+    return {'name': name, 'module': 'spikeglx.py', 'function': '_get_sync_trace_indices_from_meta', 'kind': 'block',
+            'assume': {r"typ == 'nidq'": nidq, r"typ in \['lf', 'ap'\]": not nidq},
+            'opaque': {r'_get_nchannels_from_meta\(md\)': 'nchannels'},
+            'outputs': ['ntr - nsync', 'ntr', 'nsync'], 'value': 'Int × Int × Int',
+            'params': ['nchannels', 'md_snsMnMaXaDw_m1', 'md_snsApLfSy_2']}
+
+
+def _fs_item(name, imec):
+    return {'name': name, 'module': 'spikeglx.py', 'function': '_get_fs_from_meta', 'kind': 'fn', 'assume': {_IMEC: imec}}
+
+
+_CONV = {'module': 'spikeglx.py', 'function': '_conversion_sample2v_from_meta',
+         'opaque': {r'_get_nchannels_from_meta\(meta_data\)': 'nchannels',
+                    r'len\(_get_sync_trace_indices_from_meta\(meta_data\)\)': 'len_sync_indices',
+                    r"meta_data\['snsApLfSy'\]\[-1\]": 'snsApLfSy_m1'}}
+
 SPEC = {
-    'items': [_item('stream_type_nidq', True), _item('stream_type_imec', False)],
-    'theorems': ['IblVerif.Tie.C09.stream_type_imec_eq', 'IblVerif.Tie.C09.stream_type_nidq_eq'],
-    'covers': '_get_type_from_meta (ap / lf / nidq from the first two entries of snsApLfSy)',
+    'items': [
+        _type_item('stream_type_nidq', True), _type_item('stream_type_imec', False),
+        _maxint_item('max_int_imec', True), _maxint_item('max_int_other', False),
+        _sync_item('sync_range_nidq', True), _sync_item('sync_range_imec', False),
+        _fs_item('fs_imec', True), _fs_item('fs_other', False),
+        {'name': 'nchannels', 'module': 'spikeglx.py', 'function': '_get_nchannels_from_meta', 'kind': 'fn'},
+        dict(_CONV, name='conv_nchn', kind='expr', target='n_chn', params=['nchannels', 'len_sync_indices']),
+    ],
+    'theorems': ['IblVerif.Tie.C09.stream_type_imec_eq', 'IblVerif.Tie.C09.stream_type_nidq_eq',
+                 'IblVerif.Tie.C09.np2_flag_eq', 'IblVerif.Tie.C09.max_int_imec_eq', 'IblVerif.Tie.C09.max_int_other_eq',
+                 'IblVerif.Tie.C09.sync_range_imec_eq', 'IblVerif.Tie.C09.sync_range_nidq_eq', 'IblVerif.Tie.C09.fs_eq',
+                 'IblVerif.Tie.C09.nchannels_eq', 'IblVerif.Tie.C09.conv_nchn_eq', 'IblVerif.Tie.C09.conv_steps_eq',
+                 'IblVerif.Tie.C09.conversion_runs_source_steps'],
+    'covers': ('_get_type_from_meta (ap / lf / nidq from the first two entries of snsApLfSy); _get_max_int_from_meta (imec NP2 -> imMaxInt, '
+               'imec NP1 -> default 512, other -> default 32768); _get_sync_trace_indices_from_meta (first index ntr - nsync, nsync = '
+               'snsApLfSy[2] / snsMnMaXaDw[-1]); _get_fs_from_meta and _get_nchannels_from_meta (which key); _conversion_sample2v_from_meta as '
+               'the ordered list of its array-building steps (sync block length, n_chn = nchannels - len(sync indices), the cut [:n_chn], '
+               'IMRO field -1 -> lf / -2 -> ap, nidq block order 0,1,2,3): Meta.conversion = the interpretation of exactly these steps'),
 }
+
+# _conversion_sample2v_from_meta as the ordered list of its array-building steps (whole-statement events; the regular expressions fix
+# the text of each step, the captured groups are the integers that decide its SHAPE: the length of the sync block, the count the
+# per-channel part is cut to, which field of an IMRO row feeds which stream, which entry of snsMnMaXaDw sizes which nidq block)
+_HS2 = r"np\.hstack\(\(int2volt / 80 \* np\.ones\((\w+)\)\.astype\(np\.float32\), sy_gain\)\)"
+_HS1 = r"np\.hstack\(\(np\.array\(\[1 / np\.float32\(g\.split\(' '\)\[(-?\d+)\]\) for g in gain\]\) \* int2volt, sy_gain\)\)"
+_ND = r"meta_data\['snsMnMaXaDw'\]\[(\d+)\]"
+_CONV_EVENTS = [
+    [r"^np\.ones\((int\(.+\)), dtype=np\.float32\)$", 'sync_ones', [r'\1']],
+    [r"^out = \{'lf': " + _HS2 + r", 'ap': " + _HS2 + r"\}$", 'np2', [r'\1', r'\2'], 'stmt'],
+    [r"^gain = re\.findall\('\(\[0-9\]\* \[0-9\]\* \[0-9\]\* \[0-9\]\* \[0-9\]\*\)', meta_data\['imroTbl'\]\)\[:(\w+)\]$", 'take', [r'\1'], 'stmt'],
+    [r"^out = \{'lf': " + _HS1 + r", 'ap': " + _HS1 + r"\}$", 'np1', [r'\1', r'\2'], 'stmt'],
+    [r"^gain = np\.r_\[np\.ones\(int\(" + _ND + r"\)\) / meta_data\['niMNGain'\] \* int2volt, np\.ones\(int\(" + _ND
+     + r"\)\) / meta_data\['niMAGain'\] \* int2volt, np\.ones\(int\(" + _ND + r"\)\) \* int2volt, np\.ones\(int\(np\.sum\(" + _ND + r"\)\)\)\]$",
+     'nidq', [r'\1', r'\2', r'\3', r'\4'], 'stmt'],
+    # any later slice assignment into an array (e.g. `s2v[-nsync:] = 1`, which is the WHOLE array when nsync == 0) is a step too
+    [r"^[\w\[\]'\".]+\[[^\]=]*:[^\]=]*\] = .+$", 'slice_assign', [], 'stmt'],
+]
+SPEC['items'].append(dict(_CONV, name='conv_steps', kind='events', events=_CONV_EVENTS, free=['version'],
+                          params=['meta_data_has_imroTbl', 'meta_data_has_niMNGain', 'version_has_NP2', 'snsApLfSy_m1', 'nchannels',
+                                  'len_sync_indices']))
